@@ -110,7 +110,7 @@ func registerHarnessIntrinsics() {
 		return nil, true
 	})
 	reg("vAssertE", func(in *Interp, fr *frame, args []Value) (Value, bool) {
-		in.obligation(fr, args[0], concName(args[1]))
+		in.obligation(fr, args[0], "E:"+concName(args[1]))
 		return nil, true
 	})
 	reg("vReach", func(in *Interp, fr *frame, args []Value) (Value, bool) {
@@ -143,6 +143,66 @@ func registerHarnessIntrinsics() {
 			return strings.EqualFold(ca, cb), true
 		}
 		return in.equalFold(fr, a, b), true
+	})
+	// ---- threads ----
+	reg("vQuiesce", func(in *Interp, fr *frame, args []Value) (Value, bool) {
+		// wait until no other thread can make progress
+		if in.cur != nil {
+			self := in.cur.id
+			in.block("quiesce", func() bool { return !in.othersRunnable(self) })
+		}
+		return nil, true
+	})
+	reg("vYield", func(in *Interp, fr *frame, args []Value) (Value, bool) {
+		in.preempt()
+		return nil, true
+	})
+	reg("vBlockedThreads", func(in *Interp, fr *frame, args []Value) (Value, bool) {
+		n := 0
+		for _, t := range in.threads {
+			if t.state == tsBlocked && t != in.cur {
+				n++
+			}
+		}
+		return Int(n), true
+	})
+	reg("vSchedFork", func(in *Interp, fr *frame, args []Value) (Value, bool) {
+		in.schedLevel = in.concreteInt(fr, args[0], "vSchedFork")
+		in.schedFork = in.schedLevel > 0
+		return nil, true
+	})
+	reg("vPreemptBudget", func(in *Interp, fr *frame, args []Value) (Value, bool) {
+		in.preemptBudget = in.concreteInt(fr, args[0], "vPreemptBudget")
+		return nil, true
+	})
+	reg("vGate", func(in *Interp, fr *frame, args []Value) (Value, bool) {
+		o := in.newObj("gate")
+		o.F["name"] = args[0]
+		cell := new(Value)
+		*cell = o
+		return cell, true
+	})
+	gate := func(v Value) *Obj { return (*(v.(*Value))).(*Obj) }
+	reg("vGateOpen", func(in *Interp, fr *frame, args []Value) (Value, bool) {
+		g := gate(args[0])
+		g.b = true
+		in.emit("gate.open", concName(g.F["name"]))
+		return nil, true
+	})
+	reg("vGateWait", func(in *Interp, fr *frame, args []Value) (Value, bool) {
+		g := gate(args[0])
+		in.emit("gate.wait", concName(g.F["name"]))
+		in.block("gate "+concName(g.F["name"]), func() bool { return g.b })
+		in.emit("gate.pass", concName(g.F["name"]))
+		return nil, true
+	})
+	reg("vTrack", func(in *Interp, fr *frame, args []Value) (Value, bool) {
+		it := args[0].(Iface)
+		p, _ := it.V.(*Value)
+		if p != nil {
+			in.trackStruct(p, concName(args[1]), it.T)
+		}
+		return nil, true
 	})
 	reg("vIsEngine", func(in *Interp, fr *frame, args []Value) (Value, bool) { return true, true })
 	reg("vLateSched", func(in *Interp, fr *frame, args []Value) (Value, bool) {
@@ -257,6 +317,7 @@ func registerHarnessIntrinsics() {
 	})
 	reg("vEnvAccept", func(in *Interp, fr *frame, args []Value) (Value, bool) {
 		in.env.accepts = append(in.env.accepts, feedItem{kind: "conn", err: args[0]})
+		in.emit("env.connect", in.connName(args[0]))
 		return nil, true
 	})
 	reg("vEnvAcceptErr", func(in *Interp, fr *frame, args []Value) (Value, bool) {
